@@ -47,6 +47,10 @@ pub struct CampaignConfig {
     pub max_seconds: f64,
     pub threads: usize,
     pub keep_going: bool,
+    /// development mode: the first run-level harness error stops the campaign with exit 2.
+    /// Otherwise such runs are counted as inconclusive (their verdict is never a violation) and
+    /// the campaign only fails with exit 2 when more than 0.5 % of the runs are inconclusive.
+    pub strict: bool,
     pub digest_file: Option<String>,
     pub replay_dir: String,
 }
@@ -66,6 +70,8 @@ pub struct CampaignResult {
     pub class_histogram: BTreeMap<String, u64>,
     pub wall_s: f64,
     pub harness_error: Option<String>,
+    pub inconclusive: u64,
+    pub inconclusive_examples: Vec<String>,
     pub digest_of_digests: u64,
 }
 
@@ -117,6 +123,8 @@ where
         known_hits: BTreeMap<String, u64>,
         classes: BTreeMap<String, u64>,
         harness_error: Option<String>,
+        inconclusive: u64,
+        inconclusive_examples: Vec<String>,
         digests: Vec<(u64, u64)>,
     }
     let shared = Arc::new(Mutex::new(Shared {
@@ -131,6 +139,8 @@ where
         known_hits: BTreeMap::new(),
         classes: BTreeMap::new(),
         harness_error: None,
+        inconclusive: 0,
+        inconclusive_examples: vec![],
         digests: vec![],
     }));
     let want_digests = true;
@@ -186,8 +196,16 @@ where
                             s.digests.push((i, rep.digest));
                         }
                         if let Some(e) = rep.harness_error {
-                            s.harness_error.get_or_insert(format!("run {i} seed {rs}: {e}"));
-                            stop.store(true, Ordering::Relaxed);
+                            if cfg.strict {
+                                s.harness_error.get_or_insert(format!("run {i} seed {rs}: {e}"));
+                                stop.store(true, Ordering::Relaxed);
+                            } else {
+                                s.inconclusive += 1;
+                                if s.inconclusive_examples.len() < 5 {
+                                    let short: String = e.chars().take(400).collect();
+                                    s.inconclusive_examples.push(format!("run {i} seed {rs}: {short}"));
+                                }
+                            }
                         }
                         for (v, path) in rep.violations.into_iter().zip(replays) {
                             *s.classes.entry(v.class.clone()).or_default() += 1;
@@ -237,7 +255,18 @@ where
         known_hits: s.known_hits,
         class_histogram: s.classes,
         wall_s: start.elapsed().as_secs_f64(),
-        harness_error: s.harness_error,
+        harness_error: if s.harness_error.is_none() && s.inconclusive * 200 > s.runs.max(200) {
+            Some(format!(
+                "{} of {} runs were inconclusive (harness could not decide them); first: {}",
+                s.inconclusive,
+                s.runs,
+                s.inconclusive_examples.first().cloned().unwrap_or_default()
+            ))
+        } else {
+            s.harness_error
+        },
+        inconclusive: s.inconclusive,
+        inconclusive_examples: s.inconclusive_examples,
         digest_of_digests: dd.0,
     }
 }
@@ -284,6 +313,10 @@ pub fn evidence_part(
     coverage.insert("violation_classes_seen".into(), json!(res.class_histogram));
     coverage.insert("event_log_digest".into(), json!(format!("{:016x}", res.digest_of_digests)));
     coverage.insert("exhaustive".into(), json!(false));
+    coverage.insert(
+        "inconclusive_runs".into(),
+        json!({"count": res.inconclusive, "meaning": "runs the harness could not decide (e.g. reference model and koto disagree on an error-free execution, which is outside the property's domain); never reported as violations; more than 0.5 % of the runs makes the check exit 2", "examples": res.inconclusive_examples}),
+    );
     for (k, v) in extra {
         coverage.insert(k, v);
     }
